@@ -234,6 +234,12 @@ func isValueTerm(t string) bool {
 // in an object that existed at entry, refers to an object that existed at
 // entry (the entry heap is closed under reachability).
 func (s *State) entryBound(p *PtrVal, val Term, t types.Type) {
+	if f, ok := s.entryBoundFact(p, val, t); ok {
+		s.assume(f)
+	}
+}
+
+func (s *State) entryBoundFact(p *PtrVal, val Term, t types.Type) (Term, bool) {
 	var ref Term
 	switch t.Underlying().(type) {
 	case *types.Pointer, *types.Map, *types.Signature, *types.Chan:
@@ -241,17 +247,17 @@ func (s *State) entryBound(p *PtrVal, val Term, t types.Type) {
 	case *types.Slice:
 		ref = sArr(val)
 	default:
-		return
+		return Term{}, false
 	}
 	if p.kind != pkStruct || len(p.path) == 0 || s.alloc.S == s.oldAlloc.S {
-		return
+		return Term{}, false
 	}
 	if s.freshRefs[p.base.S] {
-		return
+		return Term{}, false
 	}
 	leaf := typeAt(p.rootT, p.path)
 	if s.w.isFlatStruct(leaf) {
-		return
+		return Term{}, false
 	}
 	arr := s.w.fieldArray(structKeyOf(p.rootT), pathNames(p.rootT, p.path), s.w.sortOf(leaf))
 	cur := s.H(arr)
@@ -260,7 +266,7 @@ func (s *State) entryBound(p *PtrVal, val Term, t types.Type) {
 	if cur.S != old.S {
 		same = mkEq(mkSelect(cur, p.base), mkSelect(old, p.base))
 	}
-	s.assume(mkImp(mkAnd(le(p.base, s.oldAlloc), same), le(ref, s.oldAlloc)))
+	return mkImp(mkAnd(le(p.base, s.oldAlloc), same), le(ref, s.oldAlloc)), true
 }
 
 // ---- pointers ----
@@ -1129,7 +1135,14 @@ func (x *Exec) sliceOp(s *State, v *ssa.Slice) {
 		}
 		s.goal(x.siteName(s.frame, "slice-bounds", v), "safety", []string{"C14"},
 			mkAnd(le(intLit(0), lo), le(lo, hi), le(hi, sCap(sl))), x.pos(v), "")
-		s.set(v, mkSlice(sArr(sl), add(sOff(sl), lo), sub(hi, lo), sub(sCap(sl), lo)))
+		noff := add(sOff(sl), lo)
+		if lo.S != "0" {
+			// bridge for E-matching: element j of the sub-slice is element
+			// lo+j of the original (both are position off+lo+j)
+			noff = s.define("suboff", noff)
+			s.assume(Term{fmt.Sprintf("(forall ((j!q Int)) (! (= (idx %s j!q) %s) :pattern ((idx %s j!q)) :qid subslice))", noff.S, elemIndex(sOff(sl), Term{"(+ " + lo.S + " j!q)", "Int"}).S, noff.S), "Bool"})
+		}
+		s.set(v, mkSlice(sArr(sl), noff, sub(hi, lo), sub(sCap(sl), lo)))
 	case *types.Pointer:
 		at, ok := xt.Elem().Underlying().(*types.Array)
 		if !ok {
